@@ -549,8 +549,8 @@ theorem C02_bounded_eigen_band_counterexample :
 /-- `UniformBirth`: numpy draws on `[lower, upper)`; scipy's `uniform(loc, scale)` lives on
     `[loc, loc + scale]` with density `1/scale`. With `lower ≤ upper` the model's arguments
     `loc = lower`, `scale = |upper - lower|` describe the same interval. (For `lower > upper` they
-    do not: numpy then draws on `(upper, lower]`, scipy's support is `[lower, 2·lower - upper]`;
-    the constructor does not reject such bounds.) -/
+    would not — scipy's support would be `[lower, 2·lower - upper]` — but numpy's
+    `Generator.uniform` raises `high - low < 0` for such bounds, so that object cannot draw.) -/
 theorem C02_birth_param_uniform {lo hi x : ℚ} (h : lo ≤ hi) :
     ubirthTerms [(lo, hi)] [x] = [Term.uniformLogpdf x lo (hi - lo)] ∧ lo + (hi - lo) = hi ∧
       birthGenArgs [(lo, hi)] = [(lo, hi)] := by
